@@ -71,7 +71,7 @@ reg('C13', 'exploration',
     TRUST + ' Smallest knot requested only in the table\'s own unit; 0.999*a_max clamp band for the plotting variant.',
     'runtime contracts with snapshots + reference interpolation', '4/C13')
 reg('C16', 'exploration',
-    'Files present afterwards (identified by FILTWAV, not by name), their contents and the returned table for every window (ends below/on/between/above tabulated wavelengths) x a ladder of memory limits reaching every chunk size 1..n_wav (chunking is observed as passes over the SED files, not inferred from the package's formula), exhaustive for n_wav<=3 (quick) / <=6 (thorough); file set must be identical across limits; windows also in nm/mm/Angstrom, pre-existing convolved/, SEDs in sub-directories; cube packages (with/without uncertainties, aperture-independent and -dependent, named and wavelength filters mixed): a wavelength "filter" (in micron, nm, Angstrom or mm) selects the nearest tabulated slice.',
+    'Files present afterwards (identified by FILTWAV, not by name), their contents and the returned table for every window (ends below/on/between/above tabulated wavelengths) x a ladder of memory limits reaching every chunk size 1..n_wav (chunking is observed as passes over the SED files, not inferred from the formula of the package), exhaustive for n_wav<=3 (quick) / <=6 (thorough); file set must be identical across limits; windows also in nm/mm/Angstrom, pre-existing convolved/, SEDs in sub-directories; cube packages (with/without uncertainties, aperture-independent and -dependent, named and wavelength filters mixed): a wavelength "filter" (in micron, nm, Angstrom or mm) selects the nearest tabulated slice.',
     TRUST + ' Window end on a wavelength: either; empty window: zero files, empty table or exception.',
     'file-effect trace + content oracle, exhaustive small scope over windows x chunk sizes', '4/C16')
 reg('C17', 'exploration',
